@@ -169,16 +169,31 @@ Fixpoint peg2 (cl : bool) (g : G) (s : list entry) : option pres :=
   end.
 
 (** on the fragment of [Peg.peg] the two specifications coincide (whatever [cl]) *)
-Lemma peg2_peg cl g : forall s res, peg g s = Some res -> peg2 cl g s = Some res.
+Fixpoint in_peg (g : G) : bool :=
+  match g with
+  | GEmpty | GOne _ | GPred _ | GSeq _ | GUserFail => true
+  | GAny ks | GAnyIndex ks => match ks with [] => false | _ => true end
+  | GBoth a b | GLeft a b | GRight a b | GEither a b
+  | GImplies a b | GAntecedent a b | GConsequent a b | GCondImplies a _ b => in_peg a && in_peg b
+  | GCenter a b d => in_peg a && in_peg b && in_peg d
+  | GMap _ a | GDiscard a | GSomeOf a | GSub a | GRaw a | GUnrec a | GCtxPush _ a
+  | GMaybe a | GCond _ a | GRequireIf _ a => in_peg a
+  | _ => false
+  end.
+
+Lemma peg2_peg cl g : in_peg g = true -> forall s, peg2 cl g s = peg g s.
 Proof.
-  induction g; intros s0 res H; cbn [peg] in H; try discriminate H; cbn [peg2];
-    try exact H;
-    repeat match goal with
-           | IH : forall s res, peg ?a s = Some res -> peg2 cl ?a s = Some res, H : context [peg ?a ?s1] |- _ =>
-             let E := fresh "E" in destruct (peg a s1) as [[? ?|]|] eqn:E;
-             [rewrite (IH _ _ E)|rewrite (IH _ _ E)|]; cbn [pbind pmap pmaybe] in H |- *; try discriminate H
-           | H : context [match ?v with VSome _ => _ | _ => _ end] |- _ => destruct v
-           | H : context [if ?b then _ else _] |- _ => destruct b
-           | ks : list kind |- _ => destruct ks; [discriminate H|]
-           end; try exact H; try discriminate H; auto.
+  induction g; cbn [in_peg]; intros Hc s0; try discriminate Hc; cbn [peg peg2];
+    repeat match goal with Hc : _ && _ = true |- _ => apply andb_prop in Hc; destruct Hc end;
+    try (destruct ks; [discriminate Hc|]); try (destruct b);
+    repeat first
+      [ reflexivity
+      | match goal with
+        | IH : in_peg ?a = true -> forall s, peg2 cl ?a s = peg ?a s, Hc : in_peg ?a = true |- context [peg2 cl ?a ?s1] =>
+          rewrite (IH Hc s1)
+        end
+      | match goal with
+        | |- context [peg ?a ?s1] => is_var a; destruct (peg a s1) as [[? ?|]|]; cbn [pbind pmap pmaybe]
+        end
+      | match goal with |- context [if vpeval ?p ?v then _ else _] => destruct (vpeval p v) end ].
 Qed.
